@@ -774,7 +774,12 @@ func c16Transition(c *vcore.Ctx, m *c16Model, hist []c16Op, tag string, report b
 }
 
 func c16Seq(c *vcore.Ctx, depth int) {
-	const split = 2 // levels below this are expanded identically by every worker; the depth-2 frontier is partitioned
+	// levels below split are expanded identically by every worker (each transition and state is
+	// counted and reported by one of them); the frontier at depth split is partitioned
+	split := 2
+	if c.Thorough() {
+		split = 3
+	}
 	root := c16Root()
 	seen := map[string]bool{root.key(): true}
 	frontier := []*c16Node{{nil, root}}
